@@ -142,14 +142,36 @@ package sfnt
 //@     invariant forall k uint32 :: seen(c, k) ==> has(c, k)
 
 // ---- frames (C16): read-only operations write only memory they allocate ----
+// (the two implementations, (*glyf.Outlines).NumGlyphs and
+// (*cff.Outlines).NumGlyphs, are under contract in their packages with the
+// same postcondition)
 //@ assume func (o Outlines) NumGlyphs() (n int)
 //@   ensures n >= 0
+//@   ensures is(o, *glyf.Outlines) ==> n == len(o.(*glyf.Outlines).Glyphs)
+//@   ensures is(o, *cff.Outlines) ==> n == len(o.(*cff.Outlines).Glyphs)
 //@   modifies nothing
 
 //@ func (f *Font) NumGlyphs() (n int)   props: C16
 //@   requires f != nil && f.Outlines != nil
 //@   ensures n >= 0
+//@   ensures is(f.Outlines, *glyf.Outlines) ==> n == len(f.Outlines.(*glyf.Outlines).Glyphs)
+//@   ensures is(f.Outlines, *cff.Outlines) ==> n == len(f.Outlines.(*cff.Outlines).Glyphs)
 //@   modifies nothing
+
+// Widths: one advance width per glyph, never a panic for a font whose
+// outlines are well-formed - including a TrueType font without "hmtx" data
+// (glyf.Outlines.Widths == nil), which WidthsPDF and GlyphWidth accept too.
+//@ func (f *Font) Widths() (res []float64)   props: C02 C12 C16
+//@   requires f != nil && f.Outlines != nil && (is(f.Outlines, *glyf.Outlines) || is(f.Outlines, *cff.Outlines))
+//@   requires is(f.Outlines, *glyf.Outlines) ==> f.Outlines.(*glyf.Outlines) != nil && (f.Outlines.(*glyf.Outlines).Widths == nil || len(f.Outlines.(*glyf.Outlines).Widths) == len(f.Outlines.(*glyf.Outlines).Glyphs))
+//@   requires is(f.Outlines, *cff.Outlines) ==> f.Outlines.(*cff.Outlines) != nil && forall i int :: 0 <= i && i < len(f.Outlines.(*cff.Outlines).Glyphs) ==> f.Outlines.(*cff.Outlines).Glyphs[i] != nil
+//@   ensures isnil(res) || (fresh(res) && is(f.Outlines, *glyf.Outlines) ==> len(res) == len(f.Outlines.(*glyf.Outlines).Glyphs))
+//@   opt assume_make=1
+//@   modifies nothing
+//@   loop 0
+//@     invariant fresh(widths) && len(widths) == len(outlines.Glyphs)
+//@   loop 1
+//@     invariant fresh(widths) && len(widths) == len(outlines.Glyphs)
 
 // MakeGlyphNames: the returned list is freshly allocated and nothing that
 // existed before the call is written (frame-only contract: the absence of
